@@ -330,8 +330,16 @@ def build(spec):
             return None  # matrix functions on an edge-less hypergraph: not specified
         with env(S.symbolic):
             r = checks(h, la, f, keep_iso, weighted, present, labels, S.symbolic)
-        if r:
-            return Fail(r)
+            if r:
+                return Fail(r)
+            # the same object is rewired (one hyperedge out, another in: counts unchanged) and asked again
+            absent = [tuple(sorted(e)) for e, b in zip(cands, bits) if not b]
+            if spec.get("rewire") and absent:
+                h.remove_edge(present[0])
+                h.add_edge(absent[0], weight=S.int("w_rewired") if weighted else None)
+                r = checks(h, la, f, keep_iso, weighted, present[1:] + [absent[0]], labels, S.symbolic)
+                if r:
+                    return Fail(r + ":after-rewiring-the-same-object")
         return None
 
     return harness
@@ -425,7 +433,8 @@ def obligations(tier, seed):
         for fixed in itertools.product([0, 1], repeat=nfix):
             for weighted in (True, False):
                 out.append({"family": "matrix", "cands": cname, "fixed": list(fixed), "weighted": weighted,
-                            "build": "remove" if (sum(fixed) + weighted) % 2 else "add"})
+                            "build": "remove" if (sum(fixed) + weighted) % 2 else "add",
+                            "rewire": (sum(fixed) + weighted) % 3 == 0})
             if sum(fixed) == 2 or not q:
                 out.append({"family": "matrix", "cands": cname, "fixed": list(fixed), "weighted": True, "wtype": "real"})
                 out.append({"family": "matrix", "cands": cname, "fixed": list(fixed), "weighted": True, "wtype": "frac"})
